@@ -128,6 +128,15 @@ class Engine:
             with concurrent.futures.ThreadPoolExecutor(max_workers=1) as ex:
                 events, obj = ex.submit(work).result()
             self._finished(i, mode, events, obj, "worker-thread")
+        elif kind == "declare":
+            # an application may declare further parameter areas (e.g. of a vendor command) while it is decoding
+            from tpmstream.spec.commands.params_common import TPMS_PARAMS
+            from tpmstream.spec.common.values import tpm_dataclass
+            from tpmstream.spec.structures.base_types import UINT32
+
+            _, n = s
+            cls = type(f"TPMS_COMMAND_PARAMS_VENDOR_{n}", (TPMS_PARAMS,), {"__annotations__": {"value": UINT32}})
+            tpm_dataclass(cls)
         elif kind == "open":
             _, i, mode = s
             self.open.append([i, mode, self._marshal(i, mode), []])
@@ -291,6 +300,10 @@ def run_shard(ctx):
         @rule(j=st.integers(0, 3))
         def finish(self, j):
             self.e.step(("finish", j))
+
+        @rule(n=st.integers(0, 3))
+        def declare(self, n):
+            self.e.step(("declare", n))
 
         @rule(i=st.integers(0, 5))
         def objs(self, i):
